@@ -210,30 +210,134 @@ def rule_fee(ctx: Ctx, rep: Report) -> None:
 
 
 def rule_builder(ctx: Ctx, rep: Report) -> None:
-    """C18.builder: conservation and the two comparators of build_psbt."""
+    """C18.builder: conservation and the two comparators of build_psbt (patterns
+    with metavariables: parameters and callees are literal, temporaries are not)."""
     rule = "C18.builder"
     b = ctx.func("btclib.tx_builder.build_psbt")
     g = ctx.cfg(b)
-    defs = {norm(n.targets[0]): n for n in own_nodes(b.node) if isinstance(n, ast.Assign) and len(n.targets) == 1 and isinstance(n.targets[0], ast.Name)}
-    rep.ob(rule, "remainder", "remainder" in defs and norm(defs["remainder"].value) == "total_in - total_out", b.where(), "remainder = total_in - total_out")
-    rep.ob(rule, "total_in", "total_in" in defs and norm(defs["total_in"].value) == "sum((prev_out.value for prev_out in prevouts(psbt)))", b.where(), f"total_in = {norm(defs['total_in'].value) if 'total_in' in defs else None}")
-    rep.ob(rule, "total_out", "total_out" in defs and norm(defs["total_out"].value) == "sum((tx_out.value for tx_out in outputs))", b.where(), f"total_out = {norm(defs['total_out'].value) if 'total_out' in defs else None}")
-    rep.ob(rule, "change", "change" in defs and norm(defs["change"].value) == "remainder - fee", b.where(), "change = remainder - fee")
-    rep.ob(rule, "fee(with change)", "fee" in defs and norm(defs["fee"].value) == "fee_from_vsize(psbt.vsize_estimate(sizer), fee_rate)", b.where(), "fee priced on the estimate that includes the change output")
-    keep = [n for n in own_nodes(b.node) if isinstance(n, ast.If) and "dust_threshold(" in norm(n.test)]
-    okk = bool(keep) and norm(keep[0].test) in ("change >= dust_threshold(change_script, dust_fee_rate)",)
-    rep.ob(rule, "keep_change_iff_not_dust", okk, b.where(), f"{norm(keep[0].test) if keep else None}")
+    m: dict[str, str] = {}
+    F = PT.find
+    tin = F(b.node, "$tin = sum(($po.value for $po in prevouts($psbt)))", m)
+    rep.ob(rule, "total_in", tin is not None, b.where(tin), "total_in = sum of the values of the outputs the psbt's inputs spend")
+    tout = F(b.node, "$tout = sum(($to.value for $to in outputs))", m)
+    rep.ob(rule, "total_out", tout is not None, b.where(tout), "total_out = sum of the values being paid")
+    rem = F(b.node, "$rem = $tin - $tout", m)
+    rep.ob(rule, "remainder", rem is not None, b.where(rem), "remainder = total_in - total_out")
+    sol = PT.solve(b.node, ["$fee = fee_from_vsize($psbt.vsize_estimate(sizer), fee_rate)", "$chg = $rem - $fee"], m)
+    fee, chg = (sol[0] if sol else (None, None))
+    if sol:
+        m.update(sol[1])
+    rep.ob(rule, "fee(with change)", fee is not None, b.where(fee), "fee priced at the caller's rate on the virtual size estimated with the change output in place")
+    rep.ob(rule, "change", chg is not None, b.where(chg), "change = remainder - fee")
+    keep = [n for n in own_nodes(b.node) if isinstance(n, ast.If) and any(isinstance(c, ast.Call) and call_name(c) == "dust_threshold" for c in ast.walk(n.test))]
+    okk = bool(keep) and (PT.match(PT.compile_("$chg >= dust_threshold($cs, dust_fee_rate)"), keep[0].test, dict(m)) or
+                          PT.match(PT.compile_("dust_threshold($cs, dust_fee_rate) <= $chg"), keep[0].test, dict(m)) or
+                          PT.match(PT.compile_("not $chg < dust_threshold($cs, dust_fee_rate)"), keep[0].test, dict(m)))
+    rep.ob(rule, "keep_change_iff_not_dust", okk, b.where(keep[0] if keep else None), f"{norm(keep[0].test) if keep else None}")
     if keep:
-        body = " ".join(norm(s) for s in keep[0].body)
-        rep.ob(rule, "kept_change:amount_and_fee", "psbt.outputs[-1].amount = change" in body and "FundedPsbt(psbt, fee, change_index)" in body, b.where(), "the change output carries `change`, the reported fee is `fee`")
-    pops = [c for c in own_nodes(b.node) if isinstance(c, ast.Call) and norm(c.func) == "psbt.outputs.pop"]
+        st = F(keep[0], "$psbt.outputs[-1].amount = $chg", m)
+        rt = F(keep[0], "return FundedPsbt($psbt, $fee, $ci)", m)
+        rep.ob(rule, "kept_change:amount_and_fee", st is not None and rt is not None, b.where(keep[0]), "the change output carries `change`, the reported fee is `fee`")
+    pops = [c for c in own_nodes(b.node) if isinstance(c, ast.Call) and PT.match(PT.compile_("$psbt.outputs.pop()"), c, dict(m))]
     rep.ob(rule, "dropped_change:output_removed", bool(pops), b.where(), "a dust change output is removed")
-    owed = defs.get("owed")
-    rep.ob(rule, "owed_repriced", owed is not None and norm(owed.value) == "fee_from_vsize(psbt.vsize_estimate(sizer), fee_rate)" and bool(pops) and owed.lineno > pops[0].lineno, b.where(), "the fee owed is re-priced after the change output is gone")
-    rep.ob(rule, "underfunded_refused", any(c.subject == "remainder" and c.op == "<" and c.value_text.startswith("owed") for c in refusal_constraints(ctx, b)), b.where(), "remainder < owed refused")
-    rets = [n for n in own_nodes(b.node) if isinstance(n, ast.Return)]
-    rep.ob(rule, "no_change:fee_is_remainder", any(norm(r.value) == "FundedPsbt(psbt, remainder, change_index)" for r in rets), b.where(), "without change the whole remainder is the fee")
-    rep.ob(rule, "no_inputs_refused", any(c.subject == "inputs" and c.op == "falsy" for c in refusal_constraints(ctx, b)), b.where(), "no inputs refused")
+    owed = F(b.node, "$owed = fee_from_vsize($psbt.vsize_estimate(sizer), fee_rate)", dict(m, **{}))
+    owed_all = [n for n, bb in PT.find_all(b.node, "$owed = fee_from_vsize($psbt.vsize_estimate(sizer), fee_rate)", {"psbt": m.get("psbt", "?")}) if bb.get("owed") != m.get("fee")]
+    ok_owed = bool(owed_all) and bool(pops) and g.path_avoiding(g.nodes_containing(owed_all[0]), [i for c in pops for i in g.nodes_containing(c)]) is not None \
+        and all(_after(g, pops[0], owed_all[0]) for _ in (0,))
+    rep.ob(rule, "owed_repriced", ok_owed, b.where(owed_all[0] if owed_all else None), "the fee owed is priced again, on the virtual size estimated after the dust change output is gone")
+    owed_name = next((bb["owed"] for n, bb in PT.find_all(b.node, "$owed = fee_from_vsize($psbt.vsize_estimate(sizer), fee_rate)", {"psbt": m.get("psbt", "?")}) if bb.get("owed") != m.get("fee")), "?")
+    cs = refusal_constraints(ctx, b)
+    rep.ob(rule, "underfunded_refused", has(cs, m.get("rem", "?"), "<", owed_name) is not None, b.where(), "remainder < owed refused")
+    rt2 = F(b.node, "return FundedPsbt($psbt, $rem, $ci2)", m)
+    rep.ob(rule, "no_change:fee_is_remainder", rt2 is not None, b.where(rt2), "without change the whole remainder is the fee")
+    rep.ob(rule, "no_inputs_refused", has(cs, "inputs", "falsy") is not None, b.where(), "no inputs refused")
+
+
+def _after(g, first: ast.AST, second: ast.AST) -> bool:
+    """second is reachable from first."""
+    a = g.nodes_containing(first)
+    bs = set(g.nodes_containing(second))
+    return any(bs & set(g.reachable(i)) for i in a)
+
+
+def rule_vsize_ceil(ctx: Ctx, rep: Report) -> None:
+    """C18.vsize_ceil: wherever the package divides a weight by four the
+    quotient is rounded up -- `ceil(w / 4)`, `(w + 3) // 4` or `-(-w // 4)`;
+    a floor there prices a transaction on a virtual size one below its own."""
+    rule = "C18.vsize_ceil"
+    n = 0
+    for fi in sorted(ctx.prog.functions.values(), key=lambda f: f.qualname):
+        if fi.parent is not None:
+            continue
+        for e in own_nodes(fi.node):
+            if not (isinstance(e, ast.BinOp) and isinstance(e.op, (ast.Div, ast.FloorDiv))):
+                continue
+            d = ctx.fold(e.right, fi.module)
+            if d != 4 or "weight" not in str.lower(str(norm(e.left))):
+                continue
+            n += 1
+            key = f"{fi.qualname}:{norm(e)}"
+            par = parent(e)
+            if isinstance(e.op, ast.Div):
+                ok = isinstance(par, ast.Call) and call_name(par) == "ceil"
+                rep.ob(rule, key, ok, fi.where(e), "ceil(weight / 4)" if ok else "a true division of a weight by four that is not rounded up")
+            else:
+                left = e.left
+                up = isinstance(left, ast.BinOp) and isinstance(left.op, ast.Add) and 3 in (ctx.fold(left.left, fi.module), ctx.fold(left.right, fi.module))
+                neg = isinstance(left, ast.UnaryOp) and isinstance(left.op, ast.USub) and isinstance(par, ast.UnaryOp) and isinstance(par.op, ast.USub)
+                rep.ob(rule, key, up or neg, fi.where(e), "rounded up" if up or neg else
+                       "weight // 4 rounds down: the virtual size is ceil(weight / 4), and a fee priced on the floor is short whenever the weight is not a multiple of four")
+    rep.floor(rule, 3)
+
+
+def rule_exact_rate(ctx: Ctx, rep: Report) -> None:
+    """C18.exact_rate: in btclib.fee a Decimal is never an operand of arithmetic --
+    `*`, `/`, `+`, `-`, `//`, `%`, `**` on a Decimal round to the precision of
+    whatever decimal context the caller happens to carry, and a conversion that
+    exists so that truncation is impossible must not read it. (as_integer_ratio,
+    is_finite, comparisons and str are exact.)"""
+    rule = "C18.exact_rate"
+    mi = ctx.module("btclib.fee")
+    n = 0
+    for fi in sorted(mi.functions.values(), key=lambda f: f.qualname):
+        decs = {norm(t) for a in own_nodes(fi.node) if isinstance(a, ast.Assign) and isinstance(a.value, ast.Call) and call_name(a.value) == "Decimal" for t in a.targets if isinstance(t, ast.Name)}
+        for d in sorted(decs):
+            n += 1
+            bad = [e for e in own_nodes(fi.node) if isinstance(e, (ast.BinOp, ast.AugAssign)) and
+                   any(isinstance(o, ast.Name) and o.id == d for o in ((e.left, e.right) if isinstance(e, ast.BinOp) else (e.target, e.value)))]
+            rep.ob(rule, f"{fi.qualname}:{d}", not bad, fi.where(bad[0] if bad else None),
+                   "read through as_integer_ratio / comparisons only" if not bad else
+                   f"`{norm(bad[0])}` is Decimal arithmetic: it rounds to the caller's decimal context, so the conversion is exact only under a wide enough one")
+    rep.floor(rule, 1)
+
+
+def rule_dust_unspendable(ctx: Ctx, rep: Report) -> None:
+    """C18.dust_unspendable: the zero threshold is for a script that *starts*
+    with OP_RETURN (nothing else is unspendable by that byte): the test is on
+    the first byte, never a search of the whole script -- 0x6a occurs inside
+    pushed data of ordinary outputs, which would then be "never dust"."""
+    rule = "C18.dust_unspendable"
+    dt = ctx.func("btclib.fee.dust_threshold")
+    sp = dt.params()[0]
+    tests = [c for c in own_nodes(dt.node) if isinstance(c, (ast.Compare, ast.Call)) and "OP_RETURN" in norm(c) and sp in norm(c)
+             and not any(isinstance(x, (ast.Compare,)) and x is not c and "OP_RETURN" in norm(x) for x in ast.walk(c))]
+    tests = [c for c in tests if isinstance(c, ast.Compare) or call_name(c) in ("startswith",)]
+    if not tests:
+        rep.unknown(rule, "dust_threshold", dt.where(), "no comparison of the script with OP_RETURN found in the shape this rule reads")
+        return
+    for c in tests:
+        if isinstance(c, ast.Call):
+            rep.ob(rule, "first_byte", True, dt.where(c), "startswith(OP_RETURN)")
+            continue
+        op = c.ops[0]
+        sides = [c.left, c.comparators[0]]
+        first = any(isinstance(x, ast.Subscript) and norm(x.value) == sp and norm(x.slice) in (":1", "0:1", "0") for x in sides)
+        if isinstance(op, (ast.In, ast.NotIn)):
+            rep.ob(rule, "first_byte", False, dt.where(c), f"`{norm(c)}` searches the whole script for the OP_RETURN byte: an ordinary output whose pushed data contains 0x6a gets a dust threshold of zero")
+        elif isinstance(op, (ast.Eq, ast.NotEq)) and first:
+            rep.ob(rule, "first_byte", True, dt.where(c), "compares the first byte")
+        else:
+            rep.unknown(rule, "first_byte", dt.where(c), f"`{norm(c)}`: shape not recognised")
 
 
 def rule_money(ctx: Ctx, rep: Report) -> None:
@@ -259,10 +363,22 @@ RULES = [
     ("C18.weight", rule_weight),
     ("C18.fee", rule_fee),
     ("C18.builder", rule_builder),
+    ("C18.vsize_ceil", rule_vsize_ceil),
+    ("C18.exact_rate", rule_exact_rate),
+    ("C18.dust_unspendable", rule_dust_unspendable),
     ("C18.money", rule_money),
 ]
 
 CONTROLS = [
+    {"rule": "C18.vsize_ceil", "name": "the fee owed is priced on weight // 4", "module": "btclib.tx_builder",
+     "edit": lambda ctx: M.sub_expr(ctx, "btclib.tx_builder.build_psbt", lambda n: isinstance(n, ast.Assign) and norm(n.targets[0]) == "owed",
+                                    "owed = fee_from_vsize(psbt.weight_estimate(sizer) // 4, fee_rate)")},
+    {"rule": "C18.exact_rate", "name": "sat/vB scaled by Decimal multiplication", "module": "btclib.fee",
+     "edit": lambda ctx: M.sub_expr(ctx, "btclib.fee.FeeRate.from_sats_per_vbyte", lambda n: isinstance(n, ast.Assign) and "as_integer_ratio" in norm(n.value),
+                                    "numerator, denominator = int(rate * _VBYTES_PER_KVBYTE), _VBYTES_PER_KVBYTE")},
+    {"rule": "C18.dust_unspendable", "name": "OP_RETURN searched anywhere in the script", "module": "btclib.fee",
+     "edit": lambda ctx: M.sub_expr(ctx, "btclib.fee.dust_threshold", lambda n: isinstance(n, ast.Compare) and "OP_RETURN" in norm(n) and isinstance(n.ops[0], ast.Eq),
+                                    "BYTE_FROM_OP_CODE_NAME['OP_RETURN'] in script_pub_key")},
     {"rule": "C18.size_vs_serialize", "name": "TxIn size forgets the sequence", "module": "btclib.tx.tx_in",
      "edit": lambda ctx: M.sub_expr(ctx, "btclib.tx.tx_in.TxIn._serialized_size", lambda n: isinstance(n, ast.Return), "return self.prev_out._serialized_size() + var_bytes._size(self.script_sig)")},
     {"rule": "C18.size_vs_serialize", "name": "Tx size counts the output count as one byte", "module": "btclib.tx.tx",
